@@ -79,7 +79,8 @@ type roundSpec struct {
 	point   byte // 'a': the handler's first node read fails, 'b': its second one (where the real handler has one)
 	kind    byte // error kind of the scripted failure: g generic, t time-out (net.Error), w wrapped time-out,
 	// u "unknown block", n "header not found", c context.DeadlineExceeded
-	branch int // which branch of the chain is the active one in this round (a re-organisation switches it)
+	retry  string // store field `s@<h>` / `x@<h>`: a retry request for height h is handled right before this round
+	branch int    // which branch of the chain is the active one in this round (a re-organisation switches it)
 }
 
 type scanTimeout struct{}
@@ -102,6 +103,18 @@ func scriptedErr(kind byte) error {
 		return errors.New("header not found")
 	case 'c':
 		return context.DeadlineExceeded
+	case 'l': // provider limit on the SIZE of a log query; only raised for a query that spans more than one block
+		return errors.New("query returned more than 10000 results")
+	case 'L':
+		return errors.New("block range is too large")
+	case 'r': // JSON-RPC errors as the btcd rpcclient hands them on
+		return &btcjson.RPCError{Code: btcjson.ErrRPCInvalidParameter, Message: "Block height out of range"}
+	case 'R':
+		return &btcjson.RPCError{Code: btcjson.ErrRPCBlockNotFound, Message: "Block not found"}
+	case 'W':
+		return &btcjson.RPCError{Code: btcjson.ErrRPCInWarmup, Message: "Loading block index..."}
+	case 'M':
+		return fmt.Errorf("rpc: %w", &btcjson.RPCError{Code: btcjson.ErrRPCMisc, Message: "misc"})
 	}
 	return errors.New("scripted handler failure")
 }
@@ -123,7 +136,7 @@ func parseRounds(s string) []roundSpec {
 			r.fail = r.panicAt
 		} else if len(f) > 1 && f[1] != "n" {
 			// <idx>[a|b][kind]
-			digits := strings.TrimRight(f[1], "abgtwunc")
+			digits := strings.TrimRight(f[1], "abgtwunclLrRWM")
 			r.fail = int(u64(digits))
 			rest := f[1][len(digits):]
 			if len(rest) > 0 && (rest[0] == 'a' || rest[0] == 'b') {
@@ -134,8 +147,13 @@ func parseRounds(s string) []roundSpec {
 				r.kind = rest[0]
 			}
 		}
-		if len(f) > 2 && f[2] == "x" {
+		if len(f) > 2 && strings.HasPrefix(f[2], "x") {
 			r.storeOk = false
+		}
+		if len(f) > 2 {
+			if i := strings.Index(f[2], "@"); i >= 0 {
+				r.retry = f[2][i+1:]
+			}
 		}
 		if len(f) > 3 {
 			r.crash = int(u64(f[3]))
@@ -169,6 +187,7 @@ type scanEnv struct {
 	fetches int  // reads seen by the Substrate node fake in the current round (real mode: handler index)
 	confPtr *big.Int // optional: the confirmations big.Int shared with other components (C04 seq)
 	onCall  func(idx int, s, e *big.Int) // optional extra observer (C19)
+	onRetry func(height string)          // optional: handles a retry request for that height (shared config objects)
 }
 
 func newScanEnv(kind string, conf, k int64, nh int, rounds []roundSpec, kv store.KeyValueReaderWriter) *scanEnv {
@@ -222,6 +241,14 @@ func (e *scanEnv) nextRound() string {
 	}
 	e.actions = 0
 	e.fetches = 0
+	if rt := e.rounds[e.pos].retry; rt != "" && e.onRetry != nil {
+		// a retry-by-height message arrives between two scan steps and is handled by the retry message handler that
+		// shares the chain config with this listener
+		hook := e.onRetry
+		e.mu.Unlock()
+		hook(rt)
+		e.mu.Lock()
+	}
 	h := e.rounds[e.pos].head
 	o := roundObs{head: strings.SplitN(h, "~", 2)[0], store: "-"}
 	if h == "F" {
@@ -254,6 +281,9 @@ func (e *scanEnv) handle(idx int, s, end *big.Int) error {
 	o.calls = append(o.calls, itoa(idx)+"."+s.String()+"."+endS)
 	fail := e.rounds[e.pos].fail == idx && (e.rounds[e.pos].point == 'a' || !e.hasPointB(idx))
 	kind := e.rounds[e.pos].kind
+	if (kind == 'l' || kind == 'L') && s.Cmp(end) >= 0 {
+		fail = false // a size limit does not hit a single-block query
+	}
 	pan := e.rounds[e.pos].panicAt == idx
 	cb := e.onCall
 	e.mu.Unlock()
